@@ -74,9 +74,12 @@ impl<'a> ResolveScope<'a> {
             .iter()
             .find(|i| i.what.iter().any(|what| what.eq(item)))
             .and_then(|import| {
-                self.scope.iter().find(|m| {
-                    (m.oid.is_some() && m.oid.eq(&import.from_oid)) || m.name.eq(&import.from)
-                })
+                // an import that states an object identifier is matched by it, independent of the
+                // order the modules were loaded in; the module name is only the fallback
+                self.scope
+                    .iter()
+                    .find(|m| m.oid.is_some() && m.oid.eq(&import.from_oid))
+                    .or_else(|| self.scope.iter().find(|m| m.name.eq(&import.from)))
             })
     }
 
